@@ -141,6 +141,17 @@ let op_js_msg a =
   | Some v -> emit ("js_msg ok " ^ canon_s v)
   | None -> emit "js_msg err"
 
+(* JsonRpc::ReadMessage + JsonRpc::DecodeMessage over the TLS stream, as JsonRpcConnection::HandleIncomingMessages runs them *)
+let op_nss_msg a =
+  let max = num a "max" (-1) in
+  let chunks = List.map hex_dec (String.split_on_char ',' (List.hd a.pos)) in
+  let input = bytes_of_string (String.concat "" chunks) in
+  let (items, e, _) = nss_run max input in
+  let its = match items with [] -> "." | l -> String.concat "," (List.map hexl l) in
+  let msgs = match items with [] -> "." | l ->
+    String.concat ";" (List.map (fun it -> match js_decode_message fparse f_js_max_depth it with Some v -> canon_s v | None -> "E") l) in
+  emit (Printf.sprintf "nss_msg items=%s msgs=%s end=%s" its msgs e)
+
 let js_deep_line a =
   let n = num a "n" 1 and close = num a "close" 1 <> 0 and obj = str a "kind" "a" = "o" in
   let b = Buffer.create (n * 6) in
@@ -236,6 +247,26 @@ let oracle_c20 script trace =
                      (z_of_int (if e = "err" then 1 else 0)) (z_of_int (int_of_string r)) (z_of_int 0))
            then fail ("ns-stream differs-from-model " ^ (str a "mode" "sync"))
          | _ -> fail ("ns-stream malformed-observation " ^ l)))
+    | Some ("nss_msg", a) ->
+      (match take line with None -> () | Some l ->
+        let t = toks_of l in
+        let input = bytes_of_string (String.concat "" (List.map hex_dec (String.split_on_char ',' (List.hd a.pos)))) in
+        (match tok_val t "items", tok_val t "msgs", tok_val t "end" with
+         | Some it, Some ms, Some e ->
+           let items = items_of it in
+           (* framing: complete frames only, then the error / the end - exactly as established for the model *)
+           let (fs, e', _) = nss_run (num a "max" (-1)) input in
+           if not (cd_frames_eqb fs items) || e <> e' then
+             fail (Printf.sprintf "ns-stream message-framing differs-from-model %s close=%s" (str a "mode" "sync") (str a "close" "clean"))
+           else begin
+             let ml = if ms = "." then [] else String.split_on_char ';' ms in
+             if List.length ml <> List.length items then fail "ns-stream message-count differs-from-frames"
+             else List.iter2 (fun it m ->
+               let dec = if m = "E" then None else (try Some (parse_value m) with _ -> None) in
+               if m <> "E" && dec = None then fail ("json-message malformed-observation " ^ m)
+               else if not (js_oracle_msg fparse f_js_max_depth feqb fint it dec) then fail "json-message over-stream differs-from-model") items ml
+           end
+         | _ -> fail ("ns-stream malformed-observation " ^ l)))
     | Some ("js_rt", a) ->
       (match take line with None -> () | Some l ->
         let t = toks_of l in
@@ -275,6 +306,7 @@ let () =
   register_op "ns_eof" op_ns_eof;
   register_op "ns_restore" op_ns_restore;
   register_op "nss_read" op_nss_read;
+  register_op "nss_msg" op_nss_msg;
   register_op "js_rt" op_js_rt;
   register_op "js_dec" op_js_dec;
   register_op "js_msg" op_js_msg;
